@@ -28,6 +28,7 @@ CONSTANTS
     Acts,           \* subset of {"write", "read", "em2mrc", "mrc2em", "invert"} enabled in this model
     TrSet,          \* transpose choices offered (subset of BOOLEAN)
     DtSet,          \* data_type choices offered (subset of {"none", "f64", "f32", "i16", "i8"})
+    SpSet,          \* spellings of the data_type option offered (subset of Spellings)
     OwSet,          \* overwrite choices offered (subset of BOOLEAN)
     MaxDepth,
     EmitMode        \* "none" | "tr" | "hist"
@@ -122,23 +123,32 @@ Put(f, A, tr, ow, e) ==
     IF Refused(f, ow) THEN res' = "refused" /\ disk' = disk
     ELSE res' = "ok" /\ disk' = [disk EXCEPT ![f] = DocOf(A, tr, FmtOf(e))]
 
-\* cryomap.write(mem, "<b>.<e>", transpose = tr, data_type = dt, overwrite = ow)
-Write(b, e, tr, dt, ow) ==
+\* The data_type option denotes an element type; the caller may spell it as the numpy scalar type (np.float64), a
+\* dtype object (np.dtype("float64")), the type name ("float64"), the array-protocol code ("f8"), the type character
+\* ("d"), a numpy alias (np.double) or - for double precision only - the builtin float.  The spelling is a parameter of
+\* the call and immaterial for its outcome: dt is the denoted type.
+Spellings == {"type", "dtype", "name", "code", "char", "alias", "builtin"}
+SpChoices(dt) == IF dt = "none" THEN {"none"} ELSE {sp \in SpSet : sp = "builtin" => dt = "f64"}
+
+\* cryomap.write(mem, "<b>.<e>", transpose = tr, data_type = <dt spelled sp>, overwrite = ow)
+Write(b, e, tr, dt, sp, ow) ==
     /\ "write" \in Acts
     /\ CanCast(mem, dt)
     /\ Put(FName(b, e), CastArr(mem, dt), tr, ow, e)
     /\ UNCHANGED mem
-    /\ Step([name |-> "write", file |-> FName(b, e), tr |-> tr, dt |-> dt, ow |-> ow])
+    /\ sp \in SpChoices(dt)
+    /\ Step([name |-> "write", file |-> FName(b, e), tr |-> tr, dt |-> dt, sp |-> sp, ow |-> ow])
 
 \* mem = cryomap.read("<b>.<e>", transpose = tr, data_type = dt)
-Read(b, e, tr, dt) ==
+Read(b, e, tr, dt, sp) ==
     /\ "read" \in Acts
     /\ disk[FName(b, e)] # NoDoc
     /\ CanCast(ArrOf(disk[FName(b, e)], tr), dt)
     /\ mem' = CastArr(ArrOf(disk[FName(b, e)], tr), dt)
     /\ res' = "ok"
     /\ UNCHANGED disk
-    /\ Step([name |-> "read", file |-> FName(b, e), tr |-> tr, dt |-> dt])
+    /\ sp \in SpChoices(dt)
+    /\ Step([name |-> "read", file |-> FName(b, e), tr |-> tr, dt |-> dt, sp |-> sp])
 
 \* cryomap.em2mrc / mrc2em("<b>.<from>", invert = inv, overwrite = ow, output_name = out);
 \* out = "default" -> the input name with the extension exchanged
@@ -180,8 +190,9 @@ Finish == /\ EmitMode = "hist"
           /\ Step([name |-> "end"])
 
 Next == \/ /\ d < Last
-           /\ \/ \E b \in Bases, e \in Exts, tr \in TrSet, dt \in DtSet, ow \in OwSet : Write(b, e, tr, dt, ow)
-              \/ \E b \in Bases, e \in Exts, tr \in TrSet, dt \in DtSet : Read(b, e, tr, dt)
+           /\ \/ \E b \in Bases, e \in Exts, tr \in TrSet, dt \in DtSet, sp \in SpSet \cup {"none"}, ow \in OwSet :
+                     Write(b, e, tr, dt, sp, ow)
+              \/ \E b \in Bases, e \in Exts, tr \in TrSet, dt \in DtSet, sp \in SpSet \cup {"none"} : Read(b, e, tr, dt, sp)
               \/ \E b \in Bases, inv \in BOOLEAN, ow \in OwSet, ob \in Bases \cup {"default"} :
                      \/ Convert("em2mrc", b, "em", "mrc", inv, ow, ob)
                      \/ Convert("mrc2em", b, "mrc", "em", inv, ow, ob)
@@ -207,6 +218,13 @@ C11_DiskLayout ==
               /\ \A c \in Cells(A) : D.data[1 + (c[1] - 1) + D.dims[1] * ((c[2] - 1) + D.dims[2] * (c[3] - 1))]
                                        = Narrow(At(A, c))
               /\ Changed \subseteq {op'.file}]_vars
+
+\* the written document is a function of the denoted element type alone - every spelling of data_type gives the file
+\* (and, for read, the array) of the canonical spelling
+C11_SpellingIrrelevant ==
+    [][/\ op'.name = "write" /\ res' = "ok" =>
+              disk'[op'.file] = DocOf(CastArr(mem, op'.dt), op'.tr, IF op'.file \in {FName(b, "em") : b \in Bases} THEN "em" ELSE "mrc")
+       /\ op'.name = "read" => mem' = CastArr(ArrOf(disk[op'.file], op'.tr), op'.dt)]_vars
 
 \* what is written is what is read back with the same transposition flag: same shape, same (narrowed) voxels
 C11_RoundTrip ==
